@@ -1,5 +1,6 @@
 import GraphSlam.Props.C06.Fixed
 import GraphSlam.Props.C03.Assembled
 import GraphSlam.Props.E2E.Step
+import GraphSlam.Props.Tie.GraphPy
 
 /-! C06 — umbrella (`fixed_column_zero`, `fixed_diagonal_identity`: the reduced system, in `Props/C03/Assembled.lean`). -/
